@@ -356,13 +356,13 @@ theorem fillBeforeTypes_sound (S : Schema) (d : Dfa) (hdet : ∀ q, ((d.edgesOf 
     (q : Nat) (after : List TypeId) (toEnd : Bool) (fill : List TypeId)
     (h : fillBeforeTypes S d q after toEnd = some fill) :
     isFill d S.generatable q after toEnd fill = true :=
-  fillBefore_sound d hdet S.generatable q after toEnd fill h
+  fillBefore_sound d hdet S.generatable q after toEnd fill (by rw [← PM.fillBeforeTypes_eq]; exact h)
 
 /-- **the Fitter's filler search is complete**: it answers `None` only if no filling exists -/
 theorem fillBeforeTypes_complete (S : Schema) (d : Dfa) (hd : DfaWF d) (q : Nat) (hq : q < d.size)
     (after : List TypeId) (toEnd : Bool) (h : fillBeforeTypes S d q after toEnd = none)
     (fill : List TypeId) : isFill d S.generatable q after toEnd fill = false :=
-  fillBefore_complete d hd S.generatable q hq after toEnd h fill
+  fillBefore_complete d hd S.generatable q hq after toEnd (by rw [← PM.fillBeforeTypes_eq]; exact h) fill
 
 /-- **the Fitter's wrapper search is the wrapper search of this file** (on a schema whose edge labels are
     node types) -/
@@ -478,7 +478,7 @@ theorem fillBeforeNodes_valid (S : Schema) (hdet : ∀ w q, (((S.dfa w).edgesOf 
     | some kids =>
       simp only [hm, Option.some.injEq] at h
       subst h
-      have hgen := fillBefore_all_gen _ _ _ _ _ _ hf
+      have hgen := fillBefore_all_gen _ _ _ _ _ _ (by rw [← PM.fillBeforeTypes_eq]; exact hf)
       have hpair := mapM_option_pairs (PM.createAndFill S (S.nodes.size + 1)) tys kids hm
       have hv : ∀ p, p ∈ tys.zip kids → FilledValid S p.1 p.2 := by
         intro p hp
@@ -525,13 +525,13 @@ example : findWrappingTypes S4 (S4.dfa 0) 0 3 = some [2] ∧
     fillBeforeTypes S4 (S4.dfa 2) 0 [] true = some [3] := by
   constructor
   · decide +kernel
-  · simp [fillBeforeTypes, fillBefore, fillSearch, fillEdges, Dfa.run, Dfa.validEnd, Dfa.edgesOf, Schema.dfa,
+  · simp [PM.fillBeforeTypes_eq, fillBefore, fillSearch, fillEdges, Dfa.run, Dfa.validEnd, Dfa.edgesOf, Schema.dfa,
       Schema.nodeType, Schema.generatable, S4, mkNT]
 
 example : PM.createAndFill S4 5 2 = some (.elem 2 [] [] [.elem 3 [] [] [.leaf 1 [] []]]) ∧
     fillBeforeNodes S4 (S4.dfa 2) 0 [] true = some (some [.elem 3 [] [] [.leaf 1 [] []]]) := by
   constructor <;>
-  simp [fillBeforeNodes, PM.createAndFill, fillBeforeTypes, fillBefore, fillSearch, fillEdges, Dfa.run,
+  simp [fillBeforeNodes, PM.createAndFill, PM.fillBeforeTypes_eq, fillBefore, fillSearch, fillEdges, Dfa.run,
     Dfa.validEnd, Dfa.edgesOf, Schema.dfa, Schema.nodeType, Schema.generatable, Schema.mkNodeO, computeAttrs, S4, mkNT]
 
 end PM.C15
